@@ -25,6 +25,7 @@ if not hasattr(_extract.blank_comments, "cache_info"):
     blank_comments = _extract.blank_comments
 
 CI_H = os.path.join(REPO, "Simbody/src/ConstraintImpl.h")
+CONS_CPP = os.path.join(REPO, "Simbody/src/Constraint.cpp")
 ROD_H = os.path.join(REPO, "Simbody/src/Constraint_RodImpl.h")
 ROD_CPP = os.path.join(REPO, "Simbody/src/Constraint_Rod.cpp")
 
@@ -38,12 +39,40 @@ class RM(S.Mat):
     def y(self): return self.col(1)
     def z(self): return self.col(2)
     def __mul__(a, b):
+        if isinstance(b, InvVec) and b.src is not None and same_matrix(a, b.src):
+            # R * (~R * y) -> y : Rotation/InverseRotation algebra. NOT an assumption here: for every body whose inverse transform
+            # is used, the lemma  R(q) (~R(q) y) == y  (value and d/dt parts, y opaque, |q| == 1) is a proved obligation of the
+            # check (lemma chain); the rewrite only spares z3 from re-deriving it inside every large goal.
+            USED_INVERSE.add(id(b.src))
+            return b.image
         r = S.Mat.__mul__(a, b)
         if isinstance(r, S.Mat) and not isinstance(r, RM) and r.nr == 3 and r.nc == 3:
             return RM(r.m)
         return r
     def __invert__(a):
         return RM([[a.m[i][j] for i in range(3)] for j in range(3)])
+
+
+USED_INVERSE = set()
+
+
+def same_matrix(a, b):
+    if a is b:
+        return True
+    for ra, rb in zip(a.m, b.m):
+        for x, y in zip(ra, rb):
+            if not (z3.eq(val(x), val(y)) and z3.eq(der(x), der(y))):
+                return False
+    return True
+
+
+class InvVec(S.Vec):
+    """the vector ~R * y: components are the real expression (every other use is exact); remembers (R, y) so that R * (~R * y)
+    can be folded back to y (see RM.__mul__)"""
+    def __init__(self, e, src=None, image=None):
+        S.Vec.__init__(self, list(e))
+        self.src, self.image = src, image
+    def _new(self, e): return S.Vec(list(e))
 
 
 class XF:
@@ -66,7 +95,8 @@ class IXF:
     def R(self): return ~self.X._R
     def __mul__(self, v):
         if isinstance(v, S.Vec):
-            return (~self.X._R) * (v - self.X._p)
+            y = v - self.X._p
+            return InvVec(((~self.X._R) * y).e, self.X._R, y)
         return NotImplemented
     def __invert__(self): return self.X
 
@@ -107,8 +137,11 @@ class Kin:
     """kinematics of one constrained body in A: pose (R,p), velocity (w,v), acceleration (b,a), all symbolic.
     rot='free': R is 9 free reals (superset of rotations; for identities that do not need orthonormality);
     rot='quat': R = R(q), |q| = 1 (exactly the proper rotations)."""
+    ALL = []
+
     def __init__(self, n, rot="free"):
         self.name, self.rot, self.side = n, rot, []
+        Kin.ALL.append(self)
         if rot == "free":
             Rv = Mat([[z3.Real("%sR%d%d" % (n, i, j)) for j in range(3)] for i in range(3)])
         else:
@@ -132,6 +165,7 @@ class State:
     def __init__(self, X, V, **kw):
         self.X, self.V = list(X), list(V)
         self.__dict__.update(kw)
+    def getTime(self): return self.time
 
 
 class Pair:
@@ -267,6 +301,60 @@ class CI:
     def getMyMatterSubsystemRep(self): return MatterRepMock()
 
 
+class IntList(list):
+    def size(self): return len(self)
+
+
+def IntArray(n, v=0):
+    return IntList([v] * int(n))
+
+
+class FnJet:
+    """abstract smooth Function of n arguments known only through its (opaque, symbolic) value and partial derivatives at the point of
+    evaluation: ASSUMED contract on SimTK::Function (C41): calcDerivative is the partial derivative of calcValue, so along a curve x(t)
+    d/dt calcValue = sum_i calcDerivative({i}) xdot_i and d/dt calcDerivative({i}) = sum_j calcDerivative({i,j}) xdot_j (chain rule).
+    Every call records the argument values so the check can require that the code evaluates the function at the right point."""
+    def __init__(self, name, n):
+        self.n, self.calls = n, []
+        self.f = z3.Real(name)
+        self.g = [z3.Real("%s_d%d" % (name, i)) for i in range(n)]
+        self.H = [[z3.Real("%s_d%d%d" % (name, i, j)) for j in range(n)] for i in range(n)]
+        self.T = [[[z3.Real("%s_d%d%d%d" % (name, i, j, k)) for k in range(n)] for j in range(n)] for i in range(n)]
+    def _dir(self, coef, x):
+        t = D(0)
+        for c, xi in zip(coef, x):
+            t = t + D(c) * D(der(xi))
+        return val(t)
+    def calcValue(self, x):
+        x = list(x); self.calls.append([val(e) for e in x])
+        return D(self.f, self._dir(self.g, x))
+    def calcDerivative(self, comps, x):
+        x = list(x); self.calls.append([val(e) for e in x]); c = [int(k) for k in comps]
+        if len(c) == 1:
+            return D(self.g[c[0]], self._dir(self.H[c[0]], x))
+        if len(c) == 2:
+            return D(self.H[c[0]][c[1]], self._dir(self.T[c[0]][c[1]], x))
+        raise ExtractionError("FnJet: derivative order %d not modelled" % len(c))
+
+
+class MatterMock:
+    """getMatterSubsystem().getMobilizedBody(b).getOneQ/getOneQDot(s, which): the coordinate / its rate from the state (assumed)"""
+    def getMobilizedBody(self, ix):
+        class MB:
+            def getOneQ(s_, st, which): return st.MQ[(int(ix), int(which))]
+            def getOneQDot(s_, st, which): return st.MQD[(int(ix), int(which))]
+        return MB()
+
+
+CUSTOM_RULES = ARRAY_RULES + [("Array_<int> v(n[,x]) -> IntArray v(n[,x])  (small index list)", r"Array_<int>\s+(\w+)\s*\(", r"IntArray \1(")]
+
+
+def custom_pre(body):
+    for rule, rx, rep in CUSTOM_RULES:
+        body = re.sub(rx, rep, body)
+    return body
+
+
 def assumptions():
     return ["ASSUMED contract on the state cache (mock): getBodyTransformFromState(s,B) / getBodyVelocityFromState(s,B) return the same X_AB / V_AB "
             "that the matter subsystem passes as operands allX_AB / allV_AB (the *FromState one-liners getBodyRotationFromState, "
@@ -278,6 +366,10 @@ def assumptions():
             "d/dt w_AB = b_AB, d/dt v_AB = a_AB (dual numbers; stations, axes, multipliers and parameters are constants)",
             "orientations: unit-quaternion parametrisation (exactly the proper rotations, C27) for bodies whose inverse transform ~X_AB is applied; arbitrary 3x3 "
             "matrix (a superset of the rotations) where orthonormality is not needed",
+            "Function-based constraints (CoordinateCoupler, SpeedCoupler, PrescribedMotion): the Function is abstract, known through opaque value / gradient / Hessian symbols "
+            "at the evaluation point with the chain rule along the motion (ASSUMED contract on SimTK::Function: calcDerivative is the partial derivative of calcValue, C41); "
+            "the check requires every evaluation to be made at the current arguments; getOneQ/U/QDotFromState and MobilizedBody::getOneQ/getOneQDot return the state's "
+            "coordinate / speed / rate; Constraint::Custom::Implementation forwarders are plumbing; State::getTime() advances at rate 1",
             "Array_<Real> <-> Vec3 reinterpretation (Vec3::getAs(&a[k]) / Vec3::updAs(&a[k])) modelled as reading / writing 3 consecutive entries; "
             "SpatialVec& parameters updated in place; Transform/InverseTransform * Vec3, Rotation::x()/y()/z(), UnitVec3(v,true) by their textbook meaning "
             "(local shim in checks/_help_c07.py on top of tools/symlib.py)"]
@@ -332,6 +424,25 @@ def build(ctx):
     classes["ConstantCoordinate"].getPosition = lambda self, s: s.position
     classes["ConstantSpeed"].getSpeed = lambda self, s: s.speed
     classes["ConstantAcceleration"].getAcceleration = lambda self, s: s.acceleration
+    # ---- Custom::Implementation based built-ins (Constraint.cpp) ----
+    ns["IntArray"] = IntArray
+    def custom(cname, members, which):
+        c = type(cname, (CI,), dict(nbodies=0))
+        classes[cname] = c
+        c.getOneQFromState = lambda self, s, M, w: s.Q[(int(M), int(w))]
+        c.getOneQDotFromState = lambda self, s, M, w: s.QD[(int(M), int(w))]
+        c.getOneUFromState = lambda self, s, M, w: s.Uv[(int(M), int(w))]
+        c.getMatterSubsystem = lambda self: MatterMock()
+        for key, mname in which:
+            B.add_method(c, CONS_CPP, r"void Constraint::%sImpl::\s*%s\s*\([^)]*\)\s*const\s*" % (cname, mname), key, members=members,
+                         methods=HELPER_NAMES + ["getOneQFromState", "getOneQDotFromState", "getOneUFromState", "getMatterSubsystem"], extra_pre=custom_pre,
+                         cxxname="Constraint::%sImpl::%s" % (cname, mname))
+        return c
+    HOLC = (("perr", "calcPositionErrors"), ("pverr", "calcPositionDotErrors"), ("paerr", "calcPositionDotDotErrors"), ("pforce", "addInPositionConstraintForces"))
+    custom("CoordinateCoupler", ["function", "coordBodies", "coordIndices", "temp"], HOLC)
+    custom("PrescribedMotion", ["function", "coordBody", "coordIndex", "temp"], HOLC)
+    custom("SpeedCoupler", ["function", "speedBodies", "speedIndices", "coordBodies", "coordIndices", "temp"],
+           (("verr", "calcVelocityErrors"), ("vaerr", "calcVelocityDotErrors"), ("vforce", "addInVelocityConstraintForces")))
     B.dump_sources()
     return B, classes, tiny
 
@@ -350,3 +461,49 @@ def net(forces, origins):
     for F, p in zip(forces, origins):
         f = f + F[1]; m = m + F[0] + cross(p, F[1])
     return f, m
+
+
+# ----------------------------------------------------------------------
+# division by a jet without z3 division terms: x / y = x * rho(y), rho = reciprocal VARIABLE of the value part
+# (definition rho * y == 1 goes to ENV.defs, like symlib's own let-abstraction), d rho = -rho^2 dy.
+# Local monkey-patch of symlib._div, active only inside the context manager.
+# ----------------------------------------------------------------------
+import contextlib
+
+
+def _recip_jet(y):
+    if isinstance(y, D):
+        r = _recip_jet(y.v)
+        if not isinstance(y.d, D) and S._is_zero(y.d):
+            return D(r, 0)
+        return D(r, S._neg(S._mul(S._mul(r, r), y.d)))
+    yv = z3.simplify(S._num(y))
+    if z3.is_rational_value(yv):
+        return S._num(1) / yv
+    # c * t with a rational coefficient c: 1/(c t) = (1/c) * rho(t)  (one reciprocal variable per distinct non-constant factor)
+    if z3.is_mul(yv) and yv.num_args() == 2 and z3.is_rational_value(yv.arg(0)):
+        return (S._num(1) / yv.arg(0)) * S._recip(yv.arg(1))
+    return S._recip(yv)
+
+
+@contextlib.contextmanager
+def reciprocal_division():
+    old = S._div
+    def div(x, y):
+        yy = y if isinstance(y, D) else D(y)
+        if z3.is_rational_value(z3.simplify(S._raw(yy))) and not isinstance(yy.d, D) and S._is_zero(yy.d):
+            return old(x, y)          # division by a numeric constant stays an exact rational operation
+        return S._mul(x, _recip_jet(yy))
+    old_sqrt = S.sqrt
+    def sqrt_canon(e):
+        """same root variable for the same radicand POLYNOMIAL: the value part is replaced by its sum-of-monomials normal form
+        (an equivalence-preserving z3 rewrite) before symlib's sqrt memoises on the term text"""
+        e = D.lift(e)
+        if not isinstance(e.v, D):
+            e = D(z3.simplify(S._num(e.v), som=True, sort_sums=True), e.d)
+        return old_sqrt(e)
+    S._div, S.sqrt = div, sqrt_canon
+    try:
+        yield
+    finally:
+        S._div, S.sqrt = old, old_sqrt
